@@ -555,13 +555,14 @@ def rf_observers():
 
 
 def confirm_liveness(fam, binary, results):
-    """C01_Progress / C18_NoStall witnesses (finite stand-ins for liveness, judged with a deadline) must
+    """C01_Progress / C18_NoStall / C18_TimeoutClosesAndReports ... witnesses (finite stand-ins for liveness, judged with a deadline
+    or after a quiet period) must
     reproduce twice more.  At most three witnesses per kind are re-executed; the rest are dropped as
     duplicates of the confirmed ones (or, if none confirms, as unconfirmed)."""
     keep = []
     tried = {}
     for kind, where, detail, replay in fam.verd.violations:
-        if kind not in ("C01_Progress", "C18_NoStall", "C02_ExchangeCompletes", "C17_HandleReturns"):
+        if kind not in ("C01_Progress", "C18_NoStall", "C02_ExchangeCompletes", "C17_HandleReturns", "C18_TimeoutClosesAndReports"):
             keep.append((kind, where, detail, replay))
             continue
         if tried.get(kind, 0) >= 3:
